@@ -1,4 +1,310 @@
+/-
+C17  In-place updates, copies and views follow a fixed aliasing contract.
+Theorems about the pure store layer of Machine.lean (buffers, views, object ids).
+-/
 import OsyrisModel
+import OsyrisProofs.C02
+
 namespace Osyris.C17
-theorem placeholder : True := trivial
+open Osyris
+
+/-! ### buffer lemmas -/
+
+theorem getR_set (buf : List Rat) (i j : Nat) (x : Rat) (hi : i < buf.length) :
+    getR (buf.set i x) j = if j = i then x else getR buf j := by
+  unfold getR
+  by_cases h : j = i
+  · subst h; simp [List.getD_eq_getElem?_getD, hi]
+  · simp [List.getD_eq_getElem?_getD, List.getElem?_set, h, Ne.symm h]
+
+theorem scatter_length (is : List Nat) : ∀ (buf xs : List Rat), (scatter buf is xs).length = buf.length := by
+  induction is with
+  | nil => intro buf xs; simp [scatter]
+  | cons i is ih =>
+    intro buf xs
+    cases xs with
+    | nil => simp [scatter]
+    | cons x xs => simp [scatter, ih]
+
+/-- positions that are not written keep their value -/
+theorem scatter_frame (is : List Nat) : ∀ (buf xs : List Rat) (j : Nat), j ∉ is →
+    (∀ i ∈ is, i < buf.length) → getR (scatter buf is xs) j = getR buf j := by
+  induction is with
+  | nil => intro buf xs j _ _; simp [scatter]
+  | cons i is ih =>
+    intro buf xs j hj hr
+    cases xs with
+    | nil => simp [scatter]
+    | cons x xs =>
+      simp only [scatter]
+      have hji : j ≠ i := fun h => hj (by simp [h])
+      rw [ih (buf.set i x) xs j (fun h => hj (by simp [h])) (fun k hk => by simpa using hr k (by simp [hk]))]
+      rw [getR_set buf i j x (hr i (by simp))]
+      simp [hji]
+
+/-- written positions hold the written values (distinct positions) -/
+theorem scatter_read (is : List Nat) : ∀ (buf xs : List Rat), is.Nodup → xs.length = is.length →
+    (∀ i ∈ is, i < buf.length) → is.map (getR (scatter buf is xs)) = xs := by
+  induction is with
+  | nil => intro buf xs _ hl _; cases xs with
+    | nil => rfl
+    | cons x xs => simp at hl
+  | cons i is ih =>
+    intro buf xs hnd hl hr
+    cases xs with
+    | nil => simp at hl
+    | cons x xs =>
+      simp only [scatter, List.map_cons]
+      have hnd' := List.nodup_cons.mp hnd
+      have hr' : ∀ k ∈ is, k < (buf.set i x).length := fun k hk => by simpa using hr k (by simp [hk])
+      rw [ih (buf.set i x) xs hnd'.2 (by simpa using hl) hr']
+      rw [scatter_frame is (buf.set i x) xs i hnd'.1 hr']
+      rw [getR_set buf i i x (hr i (by simp))]
+      simp
+
+/-! ### store lemmas -/
+
+/-- well-formed view: distinct positions inside the buffer -/
+def ViewOK (s : Store) (a : ArrO) : Prop :=
+  a.idx.Nodup ∧ ∃ b, s.bufs[a.buf]? = some b ∧ ∀ i ∈ a.idx, i < b.data.length
+
+/-- the view has as many positions as the shape has elements -/
+def ShapeOK (a : ArrO) : Prop := a.idx.length = shapeSize a.shape
+
+/-- **in-place value and unit**: after writing through an Array's view, that *same object*
+    reads the written values and carries the new unit -/
+theorem read_after_write (s s' : Store) (id : Nat) (a : ArrO) (d : List Rat) (u : U)
+    (ha : s.arrO? id = some a) (hv : ViewOK s a) (hl : d.length = a.idx.length)
+    (hw : s.writeArr? id d u = some s') :
+    ∃ dt, s'.readArr? id = some { shape := a.shape, dtype := dt, data := d, unit := u, name := a.name } := by
+  obtain ⟨hnd, b, hb, hr⟩ := hv
+  unfold Store.writeArr? at hw
+  simp only [ha, hb] at hw
+  cases hw
+  have hid : id < s.objs.length := by
+    unfold Store.arrO? at ha
+    cases h : s.objs[id]? with
+    | none => simp [h] at ha
+    | some o => exact (List.getElem?_eq_some_iff.mp h).1
+  have hbuf : a.buf < s.bufs.length := (List.getElem?_eq_some_iff.mp hb).1
+  refine ⟨b.dtype, ?_⟩
+  unfold Store.readArr? Store.arrO?
+  simp only [List.getElem?_set_self hid, List.getElem?_set_self hbuf]
+  simp only [scatter_read a.idx b.data d hnd hl hr]
+
+/-- **frame**: an Array living on another buffer is not affected -/
+theorem write_frame (s s' : Store) (id id' : Nat) (a a' : ArrO) (d : List Rat) (u : U)
+    (ha : s.arrO? id = some a) (ha' : s.arrO? id' = some a') (hne : id' ≠ id) (hbuf : a'.buf ≠ a.buf)
+    (hw : s.writeArr? id d u = some s') : s'.readArr? id' = s.readArr? id' := by
+  unfold Store.writeArr? at hw
+  simp only [ha] at hw
+  cases hb : s.bufs[a.buf]? with
+  | none => simp [hb] at hw
+  | some b =>
+    simp only [hb] at hw
+    cases hw
+    have ha'' : s.objs[id']? = some (.arr a') := by
+      unfold Store.arrO? at ha'
+      cases h : s.objs[id']? with
+      | none => simp [h] at ha'
+      | some o => cases o <;> simp_all
+    unfold Store.readArr? Store.arrO?
+    simp only [List.getElem?_set_ne (Ne.symm hne), ha'', List.getElem?_set_ne (Ne.symm hbuf)]
+
+/-- **visibility through aliases**: another Array object with the same view of the same
+    buffer (a component alias, the same data held by another object) reads the new values;
+    its own unit label is unchanged -/
+theorem write_alias (s s' : Store) (id id' : Nat) (a a' : ArrO) (d : List Rat) (u : U)
+    (ha : s.arrO? id = some a) (ha' : s.arrO? id' = some a') (hne : id' ≠ id)
+    (hsame : a'.buf = a.buf ∧ a'.idx = a.idx)
+    (hv : ViewOK s a) (hl : d.length = a.idx.length)
+    (hw : s.writeArr? id d u = some s') :
+    ∃ dt, s'.readArr? id' = some { shape := a'.shape, dtype := dt, data := d, unit := a'.unit, name := a'.name } := by
+  obtain ⟨hnd, b, hb, hr⟩ := hv
+  unfold Store.writeArr? at hw
+  simp only [ha, hb] at hw
+  cases hw
+  have ha'' : s.objs[id']? = some (.arr a') := by
+    unfold Store.arrO? at ha'
+    cases h : s.objs[id']? with
+    | none => simp [h] at ha'
+    | some o => cases o <;> simp_all
+  have hbuf : a.buf < s.bufs.length := (List.getElem?_eq_some_iff.mp hb).1
+  refine ⟨b.dtype, ?_⟩
+  unfold Store.readArr? Store.arrO?
+  simp only [List.getElem?_set_ne (Ne.symm hne), ha'', hsame.1, hsame.2, List.getElem?_set_self hbuf]
+  simp only [scatter_read a.idx b.data d hnd hl hr]
+
+/-- store invariant: every Array object points at an existing buffer -/
+def StoreOK (s : Store) : Prop := ∀ id a, s.arrO? id = some a → a.buf < s.bufs.length
+
+/-- **copies are fresh**: the copy reads the copied value, lives on a new buffer, and every
+    existing object reads as before -/
+theorem alloc_fresh (s : Store) (v : ArrV) (hok : StoreOK s) :
+    let r := s.allocArr v
+    r.2 = s.objs.length ∧
+    r.1.readArr? r.2 = some { shape := v.shape, dtype := v.dtype, data := v.data, unit := v.unit, name := v.name } ∧
+    (∀ id, id < s.objs.length → r.1.readArr? id = s.readArr? id) ∧
+    (∀ a, r.1.arrO? r.2 = some a → a.buf = s.bufs.length) := by
+  refine ⟨rfl, ?_, ?_, ?_⟩
+  · simp only [Store.allocArr, Store.readArr?, Store.arrO?]
+    simp only [List.getElem?_append_right (Nat.le_refl _), Nat.sub_self, List.getElem?_cons_zero]
+    have : (List.range v.data.length).map (getR v.data) = v.data := by
+      apply List.ext_getElem
+      · simp
+      · intro i h1 h2
+        simp [getR, List.getD_eq_getElem?_getD]
+        have : i < v.data.length := by simpa using h1
+        simp [this]
+    simp [this]
+  · intro id hid
+    simp only [Store.allocArr, Store.readArr?, Store.arrO?]
+    rw [List.getElem?_append_left hid]
+    cases ho : s.objs[id]? with
+    | none => rfl
+    | some o =>
+      cases o with
+      | arr a =>
+        have : a.buf < s.bufs.length := hok id a (by simp [Store.arrO?, ho])
+        simp only [List.getElem?_append_left this]
+      | vec _ => rfl
+      | dg _ => rfl
+      | ds _ => rfl
+  · intro a ha
+    simp only [Store.allocArr, Store.arrO?] at ha
+    simp only [List.getElem?_append_right (Nat.le_refl _), Nat.sub_self, List.getElem?_cons_zero] at ha
+    cases ha; rfl
+
+
+theorem binaryOp_applyBin (T : Tables) (op : BinOp) (l r x : ArrV) (h : ArrV.binaryOp T op l r = .ok x) :
+    ∃ r', ArrV.applyBin T op l r' = .ok x := by
+  unfold ArrV.binaryOp at h
+  by_cases hst : op.strict = true
+  · simp only [hst, if_true, bind, Except.bind] at h
+    cases hto : r.to l.unit with
+    | error e => simp [hto] at h
+    | ok p =>
+      simp only [hto, pure, Except.pure] at h
+      exact ⟨p.1, h⟩
+  · simp only [hst, Bool.false_eq_true, if_false, bind, Except.bind] at h
+    cases hto : r.to l.unit with
+    | error e =>
+      obtain ⟨he, _⟩ := C02.to_err r l.unit e hto
+      subst he
+      simp only [hto, pure, Except.pure] at h
+      exact ⟨r, h⟩
+    | ok p =>
+      simp only [hto, pure, Except.pure] at h
+      exact ⟨p.1, h⟩
+
+theorem read_of_arrO (s : Store) (id : Nat) (a : ArrO) (lhs : ArrV) (ha : s.arrO? id = some a)
+    (hl : s.readArr? id = some lhs) :
+    lhs.shape = a.shape ∧ lhs.data.length = a.idx.length ∧ lhs.name = a.name ∧ lhs.unit = a.unit := by
+  unfold Store.readArr? at hl
+  simp only [ha] at hl
+  cases hb : s.bufs[a.buf]? with
+  | none => simp [hb] at hl
+  | some b => simp only [hb] at hl; cases hl; simp
+
+/-- **C17 (in-place operator)**: when `x op= y` succeeds, `x op y` is defined with a result
+    of x's shape, the *same object* x then reads exactly the values of `x op y` (name and
+    shape unchanged); `y` is a value and cannot change. -/
+theorem C17_iop (T : Tables) (op : BinOp) (s s' : Store) (id : Nat) (a : ArrO) (rhs : ArrV)
+    (ha : s.arrO? id = some a) (hv : ViewOK s a) (hsh : ShapeOK a)
+    (h : Store.arrInplace T op s id rhs = .ok s') :
+    ∃ lhs r, s.readArr? id = some lhs ∧ ArrV.binaryOp T op lhs rhs = .ok r ∧
+      ∃ x, s'.readArr? id = some x ∧ x.data = r.data ∧ x.shape = lhs.shape ∧ x.name = lhs.name := by
+  unfold Store.arrInplace at h
+  cases hl : s.readArr? id with
+  | none => simp [hl] at h
+  | some lhs =>
+    simp only [hl] at h
+    cases hr : ArrV.binaryOp T op lhs rhs with
+    | error e => simp [hr] at h
+    | ok r =>
+      simp only [hr] at h
+      split at h
+      · cases h
+      · rename_i hshape
+        split at h
+        · cases h
+        · split at h
+          · rename_i s1 hw
+            cases h
+            obtain ⟨hls, _, hln, _⟩ := read_of_arrO s id a lhs ha hl
+            have hrs : r.shape = lhs.shape := by simpa using hshape
+            obtain ⟨r', hap⟩ := binaryOp_applyBin T op lhs rhs r hr
+            obtain ⟨out, _, hxs, _, hxd, _⟩ := C02.applyBin_spec T op lhs r' r hap
+            have hrlen : r.data.length = a.idx.length := by
+              rw [hxd, bmap2_length, ← hxs, hrs, hls, hsh]
+            obtain ⟨dt, hread⟩ := read_after_write s s' id a r.data _ ha hv hrlen hw
+            exact ⟨lhs, r, rfl, hr, _, hread, rfl, hls.symm, hln.symm⟩
+          · cases h
+
+/-- **C17 (an Array updated in place remains the same object; others untouched)**:
+    the in-place operator changes no object id, and Arrays on other buffers read as before -/
+theorem C17_iop_frame (T : Tables) (op : BinOp) (s s' : Store) (id id' : Nat) (a a' : ArrO) (rhs : ArrV)
+    (ha : s.arrO? id = some a) (ha' : s.arrO? id' = some a') (hne : id' ≠ id) (hbuf : a'.buf ≠ a.buf)
+    (h : Store.arrInplace T op s id rhs = .ok s') :
+    s'.readArr? id' = s.readArr? id' ∧ s'.objs.length = s.objs.length := by
+  unfold Store.arrInplace at h
+  cases hl : s.readArr? id with
+  | none => simp [hl] at h
+  | some lhs =>
+    simp only [hl] at h
+    cases hr : ArrV.binaryOp T op lhs rhs with
+    | error e => simp [hr] at h
+    | ok r =>
+      simp only [hr] at h
+      split at h
+      · cases h
+      · split at h
+        · cases h
+        · split at h
+          · rename_i s1 hw
+            cases h
+            refine ⟨write_frame s s' id id' a a' _ _ ha ha' hne hbuf hw, ?_⟩
+            unfold Store.writeArr? at hw
+            simp only [ha] at hw
+            cases hb : s.bufs[a.buf]? with
+            | none => simp [hb] at hw
+            | some b => simp only [hb] at hw; cases hw; simp
+          · cases h
+
+/-- **C17 (copy independence)**: after `c = a.copy()`, an in-place update of `a` does not
+    change what `c` reads, and an update of `c` does not change what `a` reads. -/
+theorem C17_copy_independent (T : Tables) (op : BinOp) (s : Store) (hok : StoreOK s) (aid : Nat)
+    (a : ArrO) (v rhs : ArrV) (ha : s.arrO? aid = some a) :
+    let s1 := (s.allocArr v).1
+    let cid := (s.allocArr v).2
+    (∀ s2, Store.arrInplace T op s1 aid rhs = .ok s2 → s2.readArr? cid = s1.readArr? cid) ∧
+    (∀ s2, Store.arrInplace T op s1 cid rhs = .ok s2 → s2.readArr? aid = s1.readArr? aid) := by
+  intro s1 cid
+  have hfresh := alloc_fresh s v hok
+  have haid : aid < s.objs.length := by
+    unfold Store.arrO? at ha
+    cases h : s.objs[aid]? with
+    | none => simp [h] at ha
+    | some o => exact (List.getElem?_eq_some_iff.mp h).1
+  have ha1 : s1.arrO? aid = some a := by
+    show (s.allocArr v).1.arrO? aid = some a
+    simp only [Store.allocArr, Store.arrO?]
+    rw [List.getElem?_append_left haid]
+    exact ha
+  have hc : ∃ c, s1.arrO? cid = some c ∧ c.buf = s.bufs.length := by
+    refine ⟨{ buf := s.bufs.length, idx := List.range v.data.length, shape := v.shape, unit := v.unit, name := v.name }, ?_, rfl⟩
+    show (s.allocArr v).1.arrO? (s.allocArr v).2 = _
+    simp only [Store.allocArr, Store.arrO?]
+    simp only [List.getElem?_append_right (Nat.le_refl _), Nat.sub_self, List.getElem?_cons_zero]
+  obtain ⟨c, hc1, hcb⟩ := hc
+  have habuf : a.buf < s.bufs.length := hok aid a ha
+  have hne : cid ≠ aid := by
+    show (s.allocArr v).2 ≠ aid
+    simp only [Store.allocArr]; omega
+  constructor
+  · intro s2 h2
+    exact (C17_iop_frame T op s1 s2 aid cid a c rhs ha1 hc1 hne (by omega) h2).1
+  · intro s2 h2
+    exact (C17_iop_frame T op s1 s2 cid aid c a rhs hc1 ha1 (Ne.symm hne) (by omega) h2).1
+
 end Osyris.C17
